@@ -361,6 +361,21 @@ func (v *FnVC) havocItem(m string, cenv *Env, pre State, oldNext string) {
 		}
 		v.unsupported("modifies item " + m)
 	case *CallE:
+		if x.Fun == "mapof" && len(x.Args) == 1 {
+			mt := v.specTerm(x.Args[0], cenv, nil)
+			if _, ok := mt.T.Underlying().(*types.Map); ok {
+				kk, dk, mm := v.mapKeys(mt.T)
+				a1 := v.fresh("mapv")
+				v.declare(a1, fmt.Sprintf("(Array %s %s)", v.sortOf(mm.Key()), v.sortOf(mm.Elem())))
+				a2 := v.fresh("mapd")
+				v.declare(a2, fmt.Sprintf("(Array %s Bool)", v.sortOf(mm.Key())))
+				v.set(kk, v.heapSort(kk), fmt.Sprintf("(store %s %s %s)", v.get(kk), mt.S, a1))
+				v.set(dk, v.heapSort(dk), fmt.Sprintf("(store %s %s %s)", v.get(dk), mt.S, a2))
+				return
+			}
+			v.unsupported("modifies item " + m)
+			return
+		}
 		if x.Fun == "elems" && len(x.Args) == 1 {
 			s := v.specTerm(x.Args[0], cenv, nil)
 			sl, ok := s.T.Underlying().(*types.Slice)
